@@ -1,7 +1,7 @@
 #!/bin/bash
 # Build everything the checks need from /repo's current working tree and /verif's sources.
 # usage: tools/build.sh [coq|extract|harness|cli|all]   (serialised by flock on build/.lock)
-set -euo pipefail
+set -uo pipefail
 VERIF="$(cd "$(dirname "$0")/.." && pwd)"
 BUILD="$VERIF/build"
 mkdir -p "$BUILD/extracted" "$BUILD/scratch" "$BUILD/target" "$BUILD/logs"
@@ -10,8 +10,15 @@ export CARGO_NET_OFFLINE=true
 exec 9>"$BUILD/.lock"
 flock 9
 
+STATUS="$BUILD/logs/status.txt"
+note() { echo "$1" >> "$STATUS"; }
+
 build_coq() {
-  python3 "$VERIF/tools/rs2v.py" "$VERIF/coq/Model/Generated.v"
+  if ! python3 "$VERIF/tools/rs2v.py" "$VERIF/coq/Model/Generated.v" > "$BUILD/logs/rs2v.log" 2>&1; then
+    # the translator does not recognise the source any more: the tables of the model are no longer those of /repo
+    note "rs2v FAILED: $(tail -1 "$BUILD/logs/rs2v.log")"
+  fi
+  cat "$BUILD/logs/rs2v.log"
   cd "$VERIF/coq"
   if [ ! -f Makefile ] || [ _CoqProject -nt Makefile ]; then
     coq_makefile -f _CoqProject -o Makefile > /dev/null
@@ -26,7 +33,7 @@ build_coq() {
   targets="$targets ${EXTRA_COQ_TARGETS:-}"
   ( ulimit -v 16000000; timeout 3000 make -k -j16 COQC="timeout 1500 coqc" $targets ) > "$BUILD/logs/coq_make.log" 2>&1 || true
   grep -E "^(Error|File )|make.*Error" "$BUILD/logs/coq_make.log" | head -20 || true
-  if grep -q "Error" "$BUILD/logs/coq_make.log"; then echo "coq build FAILED"; return 1; fi
+  if grep -q "Error" "$BUILD/logs/coq_make.log"; then echo "coq build FAILED"; note "coq FAILED"; return 1; fi
 }
 
 build_extract() {
@@ -37,7 +44,8 @@ build_extract() {
     timeout 600 coqc -Q "$VERIF/coq" Slinky "$VERIF/coq/Extract/Extract.v" > "$BUILD/logs/extract.log" 2>&1
     rm -f "$VERIF/coq/Extract/"*.vo "$VERIF/coq/Extract/"*.glob "$VERIF/coq/Extract/".*.aux 2>/dev/null || true
     cp "$VERIF/driver/main.ml" main.ml
-    ocamlfind ocamlopt -w -a -o "$BUILD/driver" model.mli model.ml main.ml >> "$BUILD/logs/extract.log" 2>&1
+    ocamlfind ocamlopt -w -a -o "$BUILD/driver" model.mli model.ml main.ml >> "$BUILD/logs/extract.log" 2>&1 \
+      || { note "extraction FAILED"; rm -f "$BUILD/driver"; }
   fi
 }
 
@@ -61,19 +69,23 @@ build_harness() {
   cd "$VERIF/harness"
   cp /repo/Cargo.lock Cargo.lock 2>/dev/null || true
   CARGO_TARGET_DIR="$BUILD/target" timeout 1200 cargo build --release --offline > "$BUILD/logs/harness.log" 2>&1 \
-    || { tail -30 "$BUILD/logs/harness.log"; echo "harness build FAILED"; return 1; }
+    || { tail -30 "$BUILD/logs/harness.log"; echo "harness build FAILED"; note "harness FAILED"; rm -f "$BUILD/target/release/slinky-verif-harness"; return 1; }
 }
 
 build_cli() {
   cd /repo
   CARGO_TARGET_DIR="$BUILD/target_cli" timeout 1200 cargo build --release --offline -p slinky-cli > "$BUILD/logs/cli.log" 2>&1 \
-    || { tail -30 "$BUILD/logs/cli.log"; echo "cli build FAILED"; return 1; }
+    || { tail -30 "$BUILD/logs/cli.log"; echo "cli build FAILED"; note "cli FAILED"; rm -f "$BUILD/target_cli/release/slinky-cli"; return 1; }
 }
 
+: > "$STATUS"
+rcsum=0
 case "$what" in
   coq) build_coq ;;
   extract) build_coq; build_extract ;;
   harness) build_harness ;;
   cli) build_cli ;;
-  all) build_coq; build_extract; build_specdriver; build_harness; build_cli ;;
+  all) build_coq || rcsum=1; build_extract || rcsum=1; build_specdriver || rcsum=1; build_harness || rcsum=1; build_cli || rcsum=1 ;;
 esac
+if [ -s "$STATUS" ]; then cat "$STATUS"; exit 1; fi
+exit $rcsum
